@@ -1,5 +1,5 @@
 /- C08 — property theorems. -/
-import TornadoModel.C08.Lemmas
+import TornadoModel.C08.Agree
 namespace TornadoModel.C08
 open TornadoModel.C06
 
@@ -78,10 +78,6 @@ theorem client_body_le_limit (cfg : Cfg) (Z : Bytes → GzRes) (segs : List Byte
 
 /-! ### agreement with the strict batch reader -/
 
-def Res.toSpec : Res → Option Res
-  | .err _ => none
-  | r => some r
-
 /-- the full statement of the property on one stream -/
 def client_agrees_with_spec_full : Prop :=
   ∀ (cfg : Cfg) (Z : Bytes → GzRes) (s : Bytes) (eof : Bool), (run cfg Z [s] eof).toSpec = Spec.readAll cfg Z s eof
@@ -106,17 +102,79 @@ theorem gzip_strict_refuted : ¬ client_agrees_with_spec_full := by
   rw [witness_model, witness_spec] at this
   simp [Res.toSpec] at this
 
-/-- stretch, tie only: segmentation independence of the machine (checked by the correspondence stream, which runs
-    every stream in several segmentations against `Spec.readAll` of the joined stream). -/
-def feed_append_goal : Prop :=
-  ∀ (cfg : Cfg) (s : Phase × Bytes) (a b : Bytes), (feed cfg (feed cfg s a) b).1 = (feed cfg s (a ++ b)).1
+/-! ### segmentation independence -/
 
-def client_segmentation_independent_goal : Prop :=
-  ∀ (cfg : Cfg) (Z : Bytes → GzRes) (segs : List Bytes) (eof : Bool), run cfg Z segs eof = run cfg Z [segs.flatten] eof
+/-- **feed_append**: feeding two segments one after the other leaves the machine in the same phase as feeding their
+    concatenation — from any state `s` (every read of the machine is prefix stable: `step_append`). -/
+theorem feed_append (cfg : Cfg) (s : Phase × Bytes) (a b : Bytes) :
+    (feed cfg (feed cfg s a) b).1 = (feed cfg s (a ++ b)).1 :=
+  feed_append' cfg s a b
 
-/-- stretch, tie only: agreement with the batch reader when no decompression is requested -/
-def client_agrees_with_spec_goal : Prop :=
-  ∀ (cfg : Cfg) (Z : Bytes → GzRes) (s : Bytes) (eof : Bool), cfg.decompress = false →
+/-- **client_segmentation_independent**: the result of a fetch depends only on the concatenation of the segments the
+    server sends (and on whether it closes), not on where the stream is cut. -/
+theorem client_segmentation_independent (cfg : Cfg) (Z : Bytes → GzRes) (segs : List Bytes) (eof : Bool) :
+    run cfg Z segs eof = run cfg Z [segs.flatten] eof := by
+  unfold run
+  rw [runPhase_flatten]
+
+example : run wCfg wZ [wStream.take 7, wStream.drop 7] true = run wCfg wZ [wStream] true := by decide
+
+/-! ### agreement with the strict batch reader, outside the recorded gzip leniencies -/
+
+/-- **client_agrees_with_spec**: with `decompress_response` off, the machine run on the whole stream returns exactly
+    what the strict batch reader `Spec.readAll` extracts, and fails exactly when that reader rejects the stream —
+    every framing (Content-Length, chunked, close-delimited), 1xx chains, 204/304/HEAD, every limit. -/
+theorem client_agrees_with_spec (cfg : Cfg) (Z : Bytes → GzRes) (s : Bytes) (eof : Bool)
+    (hd : cfg.decompress = false) : (run cfg Z [s] eof).toSpec = Spec.readAll cfg Z s eof := by
+  have h := read_agree cfg Z eof (s.length + 1) s (Nat.le_refl _) (Or.inl hd)
+  simpa [run, runPhase, feed, initial, Spec.readAll] using h
+
+example : (run { wCfg with decompress := false } wZ [wStream] true).toSpec =
+    some (.ok 200 [79, 75] [("Content-Encoding".toList.map Char.toNat, "gzip".toList.map Char.toNat)] [65]) := by
+  decide
+
+/-- **client_agrees_with_spec_gz**: the same with `decompress_response` on, under the two explicit (decidable) side
+    conditions that exclude the recorded gzip leniencies: no interim (1xx) response switched the decompressor on
+    (`interimGz`), and on the body actually handed to zlib the decompressor neither stopped inside the member nor
+    left data behind it (`ZOk`: not `trunc`, not `trail`).  A corrupt member (`bad`) and an inflated body over
+    `max_body_size` are covered: both sides reject. -/
+theorem client_agrees_with_spec_gz (cfg : Cfg) (Z : Bytes → GzRes) (s : Bytes) (eof : Bool)
+    (h1 : interimGz cfg (s.length + 1) s = false) (h2 : ∀ raw ∈ rawGzBody cfg [s] eof, ZOk (Z raw)) :
+    (run cfg Z [s] eof).toSpec = Spec.readAll cfg Z s eof := by
+  have hrun : runPhase cfg [s] = (drainFull cfg (.head false) s).1 := by
+    simp [runPhase, feed, initial]
+  have h := read_agree cfg Z eof (s.length + 1) s (Nat.le_refl _) (Or.inr ⟨h1, by
+    intro m raw hat hg hr
+    apply h2 raw
+    have hne : raw.isEmpty = false := by cases raw <;> simp_all
+    simp [rawGzBody, hrun, hat, hg, hne]⟩)
+  simpa [run, hrun, Spec.readAll] using h
+
+/-- a complete member -/
+def okZ : Bytes → GzRes := fun _ => ⟨[66], .complete⟩
+
+example : interimGz wCfg (wStream.length + 1) wStream = false ∧ (∀ raw ∈ rawGzBody wCfg [wStream] true, ZOk (okZ raw)) ∧
+    rawGzBody wCfg [wStream] true = some [65] ∧
+    Spec.readAll wCfg okZ wStream true = some (.ok 200 [79, 75]
+      [("X-Consumed-Content-Encoding".toList.map Char.toNat, "gzip".toList.map Char.toNat)] [66]) := by
+  decide
+
+/-- the statement with only the zlib side condition -/
+def client_agrees_with_spec_zok_full : Prop :=
+  ∀ (cfg : Cfg) (Z : Bytes → GzRes) (s : Bytes) (eof : Bool), (∀ raw ∈ rawGzBody cfg [s] eof, ZOk (Z raw)) →
     (run cfg Z [s] eof).toSpec = Spec.readAll cfg Z s eof
+
+/-- an interim response with `Content-Encoding: gzip`, then an identity-coded final response -/
+def wSticky : Bytes :=
+  "HTTP/1.1 100 Continue\r\nContent-Encoding: gzip\r\n\r\nHTTP/1.1 200 OK\r\nContent-Length: 1\r\n\r\nA".toList.map
+    Char.toNat
+
+/-- **interim_sticky_refuted**: the `interimGz` side condition is needed — the code as it is keeps the decompressor
+    of a 1xx response for the final one (known finding `interim-content-encoding-sticky`). -/
+theorem interim_sticky_refuted : ¬ client_agrees_with_spec_zok_full := by
+  intro h
+  have h' := h wCfg okZ wSticky true (by decide)
+  revert h'
+  decide
 
 end TornadoModel.C08
